@@ -288,6 +288,58 @@ def long_history_oracle(seed):
     return fails
 
 
+def nonfinite_draw_oracle(seed):
+    """with scatter, SOME of the population draws can give a non-finite single-draw likelihood (a double-source-plane lens
+    whose first source lies close behind the deflector: (beta - (1-lambda)(1-beta))**(1/(gamma-1)) is not a real number for
+    low lambda when the slope differs from 2).  Whatever the object has evaluated before — points where every draw is finite,
+    points where none is — the value at a point under a seed is the value a freshly built object (or a copy) returns"""
+    import random
+    rng = random.Random(seed)
+    fails = []
+    beta = np.float64(rng.uniform(0.1, 0.25))      # (as the cosmology hands it over: a numpy scalar — its fractional power of a
+    #                                                 negative base is nan, the draw is dropped; a Python float would turn complex)
+    cfg = dict(z_lens=0.5, z_source=0.6, name="D", lambda_mst_distribution="GAUSSIAN", mst_ifu=False,
+               gamma_pl_global_sampling=True, gamma_pl_global_dist="NONE", num_distribution_draws=rng.choice([6, 10, 20]),
+               _z_source2=2.0)
+    data = dict(beta_dspl=beta * rng.uniform(0.9, 1.1), sigma_beta_dspl=0.05)
+    edge = 1 - beta / (1 - beta)          # lambda below this: the single-draw value is not finite
+    gpl = rng.choice([2.1, 1.9, 2.25])
+    pts = [dict(lambda_mst=edge + rng.uniform(-0.02, 0.08), lambda_mst_sigma=rng.uniform(0.05, 0.2)),     # mixed finite / non-finite
+           dict(lambda_mst=1.3, lambda_mst_sigma=0.02),                                                    # all finite
+           dict(lambda_mst=edge - 0.4, lambda_mst_sigma=0.01),                                             # none finite
+           dict(lambda_mst=edge + 0.02, lambda_mst_sigma=0.1)]
+    lens = lc.make_lens("DSPL", cfg, data)
+    s0 = rng.randrange(2 ** 30)
+
+    def at(obj, k, sd):
+        np.random.seed(sd)
+        kl = dict(pts[k], gamma_pl_mean=gpl, gamma_pl_sigma=0.0, gamma_ppn=1.0)
+        with np.errstate(all="ignore"):
+            return float(np.squeeze(obj.hyper_param_likelihood(0.0, 0.0, 0.0, beta_dsp=beta, kwargs_lens=kl, kwargs_kin={},
+                                                                 kwargs_source={}, kwargs_los=None)))
+    same = lambda a, b: a == b or (math.isnan(a) and math.isnan(b))  # noqa: E731
+    hist = [rng.randrange(len(pts)) for _ in range(rng.choice([6, 10]))]
+    fresh = {}
+    for step, k in enumerate(hist + [0, 2, 3]):
+        sd = s0 + (step % 3)
+        if (k, sd) not in fresh:
+            fresh[(k, sd)] = at(lc.make_lens("DSPL", cfg, data), k, sd)
+        v = at(lens, k, sd)
+        if not same(v, fresh[(k, sd)]):
+            fails.append("with scatter and non-finite draws: point %r under seed %d gives %r after the history %r on one object, %r on a fresh "
+                         "object (double source plane, beta %.3f, slope %.2f, %d draws)" % (pts[k], sd, v, hist[:step], fresh[(k, sd)], beta, gpl,
+                                                                                             cfg["num_distribution_draws"]))
+            break
+    for how, obj in (("deep copy", copy.deepcopy(lens)), ("pickle round trip", pickle.loads(pickle.dumps(lens)))):
+        v = at(obj, 0, s0)
+        want = fresh.get((0, s0))
+        if want is None:
+            want = fresh[(0, s0)] = at(lc.make_lens("DSPL", cfg, data), 0, s0)
+        if not same(v, want):
+            fails.append("a %s taken after the history returns %r at a point where a fresh object returns %r (non-finite draws)" % (how, v, want))
+    return fails
+
+
 def sne_oracle(rng):
     """CustomSneLikelihood: repeated calls with varying scatter agree; stored arrays untouched"""
     from hierarc.Likelihood.SneLikelihood.sne_likelihood import SneLikelihood
@@ -365,6 +417,17 @@ def run(ctx, res):
         res.count("long_history")
         for f in fails:
             res.violation("long history:" + " ".join(f.split(" ")[:3]), f, {"kind": "long_history", "seed": sd})
+    for _ in range(ctx.n(12, 100)):
+        sd = rng.randrange(2 ** 30)
+        try:
+            fails = nonfinite_draw_oracle(sd)
+        except Exception as e:  # noqa
+            res.notes.append("non-finite-draw history could not be run: %r" % (e,))
+            continue
+        res.evaluations += 1
+        res.count("nonfinite_draw_history")
+        for f in fails:
+            res.violation("non-finite draws:" + " ".join(f.split(" ")[:6]), f, {"kind": "nonfinite_draws", "seed": sd})
     for _ in range(ctx.n(10, 100)):
         try:
             fails = sne_oracle(rng)
@@ -403,6 +466,9 @@ def replay(ctx, data):
     if inp["kind"] == "long_history":
         f = long_history_oracle(inp["seed"])
         return bool(f), "long-history oracle: %s" % (f or "holds")
+    if inp["kind"] == "nonfinite_draws":
+        f = nonfinite_draw_oracle(inp["seed"])
+        return bool(f), "non-finite-draw history: %s" % (f or "holds")
     if inp["kind"] == "sne":
         for s in range(40):
             f = sne_oracle(random.Random(s))
